@@ -66,10 +66,12 @@ class ArgumentToAst(Contract):
     def setup(self, E):
         return [self_obj(BO.GraphQLArgument, dict(_name=E.sym("name", GQ.NAME), _value=E.sym("value", GQ.NAME)))], {}
 
-    def ensures(self, A, res):
+    def result_term(self, A):
         n, v = V.attr_of(A.self, BO.GraphQLArgument, "_name"), V.attr_of(A.self, BO.GraphQLArgument, "_value")
-        return {"argument-carries-its-graphql-name-bound-to-the-variable": res == mk(G.ArgumentNode, name=mk(G.NameNode, value=n),
-                                                                                        value=mk(G.VariableNode, name=mk(G.NameNode, value=v)))}
+        return mk(G.ArgumentNode, name=mk(G.NameNode, value=n), value=mk(G.VariableNode, name=mk(G.NameNode, value=v)))
+
+    def ensures(self, A, res):
+        return {"argument-carries-its-graphql-name-bound-to-the-variable": res == self.result_term(A)}
 
 
 class BuildFieldName(Contract):
@@ -84,4 +86,98 @@ class BuildFieldName(Contract):
         return {"alias-colon-name-iff-aliased": res == z3.If(truthy(al), V.VStr(z3.Concat(V.vs(al), V.S(": "), V.vs(fn))), fn)}
 
 
-CONTRACTS = [FormatVariableName(), ArgumentToAst(), BuildFieldName()]
+V.REG.register(G.ArgumentNode, ["name", "value"]) if G.ArgumentNode not in V.REG.by_cls else None
+for _c in (G.FieldNode, G.SelectionSetNode, G.NameNode):
+    if _c not in V.REG.by_cls:
+        V.REG.register(_c, [k for k in _c.keys if k != "loc"])
+FORMATTED = z3.Const("formatted_variables_after_collect", V.Val)
+SELECTIONS = z3.Const("selections_built", V.Val)
+
+
+def _argument_node(p):
+    """formatted_variables item (unique variable name -> {"name": GraphQL argument name, ...}) -> ArgumentNode"""
+    return mk(G.ArgumentNode, name=mk(G.NameNode, value=get(V.pval(p), "name")), value=mk(G.VariableNode, name=mk(G.NameNode, value=V.pkey(p))))
+
+
+argument_nodes = SpecMap("builder_argument_nodes", _argument_node)
+
+
+class FieldToAst(Contract):
+    """GraphQLField.to_ast against recording stand-ins of _collect_all_variables / _build_selections (their parts are under
+    contract above; whole trees are the bounded stand-in's):
+      * the variables are collected exactly once, for this index, into the caller's name set - the very object that was
+        passed, also when it is still empty - or into a NEW empty set when none was passed (nothing survives from an
+        earlier rendering);
+      * one argument node per collected variable, in order: the GraphQL argument name bound to the unique variable name;
+      * the field name node is _build_field_name(); a selection set exactly when there are sub-fields or inline fragments,
+        built for the same index and the same name set."""
+    props = ("C14",)
+    target = MOD + "GraphQLField.to_ast"
+    frame_args = False
+    use_at_calls = False
+
+    def setup(self, E):
+        from pyvc.interp import ModelMethod
+        s = self_obj(BO.GraphQLField, dict(_field_name=E.sym("field_name", GQ.NAME), _alias=E.sym("alias", Opt(GQ.NAME)),
+                                           _subfields=E.sym("subfields", Pred(V.is_VList, "list")),
+                                           _inline_fragments=E.sym("inline_fragments", DictOf(GQ.NAME, Any, name="inline_fragments_by_type")),
+                                           formatted_variables=E.sym("stale_formatted_variables", DictOf(Str, Any, name="stale"))))
+        fv = E.sym("formatted_variables_after_collect", DictOf(Str, Pred(lambda t: z3.And(V.is_VDict(t), has(t, "name")), "entry with the argument name"), name="formatted_after_collect"))
+        sels = E.sym("selections_built", Pred(V.is_VList, "list"))
+        given = E.fork("used_names_given")
+        used = E.mset("used_names", Str) if given else None
+        self._used = used
+
+        def describe(arg):
+            if used is not None and arg is used:
+                return S("the-callers-set")
+            if isinstance(arg, (set, V.PSet)) and len(arg) == 0:
+                return S("a-new-empty-set")
+            if isinstance(arg, MSet) and arg is not used:
+                return z3.If(V.is_VNil(arg.elems), S("a-new-empty-set"), S("another-set"))
+            return S("something-else")
+
+        def collect(I, o, a, k):
+            I.p.effect("call", ("collect", [V.lower(a[0]), describe(a[1])], V.VNone))
+            o.attrs["formatted_variables"] = fv
+            return None
+
+        def build(I, o, a, k):
+            I.p.effect("call", ("build_selections", [V.lower(a[0]), describe(a[1])], V.VNone))
+            return sels
+        s.attrs["_collect_all_variables"] = ModelMethod(s, collect, "_collect_all_variables")
+        s.attrs["_build_selections"] = ModelMethod(s, build, "_build_selections")
+        kw = dict(used_names=used) if given else {}
+        return [s, E.sym_int("idx")], kw
+
+    def ensures(self, A, res):
+        calls = [p for k, p in A["__effects__"] if k == "call"]
+        given = z3.Bool("used_names_given")
+        where = z3.If(given, S("the-callers-set"), S("a-new-empty-set"))
+        me = A.self
+        has_children = z3.Or(truthy(V.attr_of(me, BO.GraphQLField, "_subfields")), truthy(V.attr_of(me, BO.GraphQLField, "_inline_fragments")))
+        fn, al = V.attr_of(me, BO.GraphQLField, "_field_name"), V.attr_of(me, BO.GraphQLField, "_alias")
+        name = z3.If(truthy(al), V.VStr(z3.Concat(V.vs(al), V.S(": "), V.vs(fn))), fn)
+        p = A.get("__path__")
+        args = argument_nodes.apply(p, V.vd(FORMATTED)) if p is not None else argument_nodes(V.vd(FORMATTED))
+        out = {"variables-collected-exactly-once-first": z3.BoolVal(len(calls) >= 1 and calls[0][0] == "collect" and sum(1 for c in calls if c[0] == "collect") == 1)}
+        if not (len(calls) >= 1 and calls[0][0] == "collect"):
+            return out
+        out["collected-for-this-index-into-the-callers-set-or-a-new-empty-one"] = z3.And(calls[0][1][0] == A.idx, calls[0][1][1] == where)
+        out["selections-built-iff-there-are-children-for-the-same-index-and-name-set"] = z3.And(
+            z3.BoolVal(len(calls) <= 2), has_children == z3.BoolVal(len(calls) == 2),
+            *( [z3.BoolVal(calls[1][0] == "build_selections"), calls[1][1][0] == A.idx, calls[1][1][1] == where] if len(calls) == 2 else []))
+        sel = mk(G.SelectionSetNode, selections=z3.If(V.is_VList(SELECTIONS), V.VTuple(V.vl(SELECTIONS)), SELECTIONS)) if len(calls) == 2 else V.VNone
+        out["field-name-is-alias-colon-name-or-name"] = V.attr_of(res, G.FieldNode, "name") == mk(G.NameNode, value=name)
+        out["one-argument-node-per-collected-variable-in-order"] = V.attr_of(res, G.FieldNode, "arguments") == V.VTuple(args)
+        out["selection-set-of-exactly-the-built-selections-or-none"] = V.attr_of(res, G.FieldNode, "selection_set") == sel
+        return out
+
+    def replay_custom(self, inputs):
+        from .e2e_builder import bounded_builder
+        r = bounded_builder("quick", 0)
+        return dict(inputs={"scenario": "builder expression trees"}, failed=["post.collected-for-this-index-into-the-callers-set-or-a-new-empty-one"] if r["failed"] else [],
+                    undetermined=[], pre_ok=True, outcome={"failures": r["failures"][:3]}, error=None)
+
+
+CONTRACTS = [FormatVariableName(), ArgumentToAst(), BuildFieldName(), FieldToAst()]
